@@ -392,7 +392,9 @@ class Unrolling:
     # ---- solving
     def check(self, extra, timeout_s=None):
         st = self.sys.stats
-        s = z3.SolverFor("QF_BV")
+        # bit-blasting pipeline; `solve-eqs` turns the next-state equalities into a functional (variable free)
+        # encoding, `aig` compresses the circuit (measured: 100x faster than the default QF_BV strategy here)
+        s = z3.Then("simplify", "propagate-values", "solve-eqs", "simplify", "bit-blast", "aig", "sat").solver()
         if timeout_s:
             s.set("timeout", int(timeout_s * 1000))
         s.add(*self.cons)
